@@ -10,4 +10,5 @@
 #include "ops_musig.h"
 #include "ops_surjection.h"
 #include "ops_context.h"
-#define OPS_ALL_FAMILIES ops_generator, ops_ellswift, ops_adaptor, ops_s2c, ops_whitelist, ops_halfagg, ops_bppp, ops_rangeproof, ops_musig, ops_surjection, ops_context,
+#include "ops_kernel.h"
+#define OPS_ALL_FAMILIES ops_generator, ops_ellswift, ops_adaptor, ops_s2c, ops_whitelist, ops_halfagg, ops_bppp, ops_rangeproof, ops_musig, ops_surjection, ops_context, ops_kernel,
